@@ -19,6 +19,15 @@
 (*  "ok" | "sortcol0" (only the wavelength column is sorted)               *)
 (*  | "widthsrev" (width column not carried with its row: reversed)        *)
 (*  | "notsquared" (wnwidth = 10000 wid / wl)                              *)
+(* Routes (RoutesOf): the SAME source reaches the loader in several public *)
+(* ways -- an array of any element type / memory layout; the text and HDF5 *)
+(* classes, the parameter file's [Observation] keys, and for HDF5 the      *)
+(* helper taurex.util.hdf5.taurex_hdf5_to_observation.  Every route yields *)
+(* the object of Load (RoutesAgree).  Slips that live on ONE route:        *)
+(*  | "edgesint"   (route array:int: the 4-column edge buffer takes the    *)
+(*                  element type of the input: wl +/- wid/2 truncated)     *)
+(*  | "hdf5wlgrid" (route hdf5:helper: the stored wavenumber widths are    *)
+(*                  converted back with the wavelength grid)               *)
 (***************************************************************************)
 EXTENDS Integers, Sequences, FiniteSets, TLC, Json, Rat
 
@@ -47,14 +56,22 @@ LWid(rows, D, ncol, v) ==
     LET n == Len(rows) IN
     IF ncol = 4 THEN [i \in 1..n |-> IF v = "widthsrev" THEN R(Sorted(rows)[n + 1 - i][4], D) ELSE R(Src(rows, v)[i][4], D)]
     ELSE AbsDiffs(MidEdges(LWl(rows, D)))
+ConvAt(wl) == RDiv(TenK, RMul(wl, wl))           \* first-order factor between the two width units at a centre
 LWnwA(rows, D, ncol, v) ==
     LET wl == LWl(rows, D)  wid == LWid(rows, D, ncol, v) IN
     [i \in 1..Len(rows) |-> IF v = "notsquared" THEN RDiv(RMul(TenK, wid[i]), wl[i])
+                            \* stored 10000 wid/wl^2, taken back with 10000/wl^2 again (should be 10000/wn^2), then loaded
+                            ELSE IF v = "hdf5wlgrid" /\ ncol = 4
+                            THEN RMul(RMul(ConvAt(wl[i]), ConvAt(wl[i])), RMul(ConvAt(wl[i]), wid[i]))
                             ELSE RDiv(RMul(TenK, wid[i]), RMul(wl[i], wl[i]))]
 LWnwB(rows, D, ncol, v) == IF ncol = 4 THEN LWnwA(rows, D, ncol, v) ELSE AbsDiffs(MidEdges(LWn(rows, D)))
 LEdA(rows, D, ncol, v) ==
     LET n == Len(rows)  wl == LWl(rows, D)  wid == LWid(rows, D, ncol, v) IN
-    IF ncol = 4
+    IF ncol = 4 /\ v = "edgesint"       \* lattice units: (2k +/- j)/2 truncated to an integer
+    THEN [m \in 1..(2 * n) |-> LET r == Sorted(rows)[(m + 1) \div 2] IN
+            IF m % 2 = 1 THEN RDiv(TenK, R((2 * r[1] + r[4]) \div 2, D))
+            ELSE RDiv(TenK, R((2 * r[1] - r[4]) \div 2, D))]
+    ELSE IF ncol = 4
     THEN [m \in 1..(2 * n) |-> LET i == (m + 1) \div 2 IN
             IF m % 2 = 1 THEN RDiv(TenK, RAdd(wl[i], RHalf(wid[i])))
             ELSE RDiv(TenK, RSub(wl[i], RHalf(wid[i])))]
@@ -69,6 +86,21 @@ Load(rows, D, ncol, v) ==
     [wn |-> LWn(rows, D), val |-> LVal(rows, v), err |-> LErr(rows, v),
      wnwA |-> LWnwA(rows, D, ncol, v), wnwB |-> LWnwB(rows, D, ncol, v),
      edA |-> LEdA(rows, D, ncol, v), edB |-> LEdB(rows, D, ncol, v)]
+
+\* ------------------------------------------------------------------ routes
+\* <source>:<way in>.  array: element type / memory layout of the array handed to ArraySpectrum ("list": nested Python
+\* lists -- may be refused, never loaded differently); text / hdf5: the class, the parameter file's [Observation] key
+\* (observed_spectrum / taurex_spectrum), and for hdf5 the public helper taurex.util.hdf5.taurex_hdf5_to_observation.
+ArrayRoutes == {"array:float64", "array:float32", "array:int", "array:fortran", "array:readonly", "array:list"}
+RoutesOf(ncol) == ArrayRoutes \cup {"text:class", "text:parser"}
+                  \cup (IF ncol = 4 THEN {"hdf5:class", "hdf5:helper", "hdf5:parser"} ELSE {})
+SlipRoute(v) == CASE v = "edgesint" -> "array:int" [] v = "hdf5wlgrid" -> "hdf5:helper" [] OTHER -> "any"
+LoadVia(rows, D, ncol, route, v) == Load(rows, D, ncol, IF SlipRoute(v) \in {"any", route} THEN v ELSE "ok")
+\* every two routes give the same object:  \A r1, r2 \in RoutesOf(ncol) : LoadVia(.., r1, v) = LoadVia(.., r2, v).
+\* Unfolded (RoutesOf has at least two routes; a variant slips on all of them or on exactly one), so that TLC evaluates
+\* two loads per state and not two per pair of routes:
+RoutesAgreeOn(rows, D, ncol, v) ==
+    SlipRoute(v) \in RoutesOf(ncol) => LoadVia(rows, D, ncol, SlipRoute(v), v) = Load(rows, D, ncol, "ok")
 
 \* inputs in the property's quantifier: >= 2 rows, distinct positive wavelengths, positive widths
 \* smaller than twice the wavelength (4 columns), lowest mirrored edge positive (3 columns)
